@@ -418,13 +418,20 @@ class kMinPathErrorCycles(walkmodel.AbstractWalkModelDiGraph):
         non_empty_walks = []
         non_empty_weights = []
         non_empty_slacks = []
-        for walk, weight, slack in zip(solution["walks"], solution["weights"], solution["slacks"]):
-            if len(walk) > 1:
+        # In node-weighted mode a route through a single node is not empty: emptiness is decided
+        # on the internal (expanded) routes, which are filtered together with the reported ones.
+        internal_walks = solution.get("_walks_internal", solution["walks"])
+        non_empty_internal = []
+        for walk, internal_walk, weight, slack in zip(solution["walks"], internal_walks, solution["weights"], solution["slacks"]):
+            if len(internal_walk) > 1:
+                non_empty_internal.append(internal_walk)
                 non_empty_walks.append(walk)
                 non_empty_weights.append(weight)
                 non_empty_slacks.append(slack)
 
         solution_copy["walks"] = non_empty_walks
+        if "_walks_internal" in solution_copy:
+            solution_copy["_walks_internal"] = non_empty_internal
         solution_copy["weights"] = non_empty_weights
         solution_copy["slacks"] = non_empty_slacks
         return solution_copy
